@@ -107,23 +107,11 @@ def _env_reads(repo):
     return out
 
 
-def r2(ctx):
+def exec_environment(ctx, rid):
+    """the environment of the re-exec'ed master, evaluated (see below)"""
     repo = ctx.repo
     f = ctx.fn(repo.func(ARB + ".reexec"))
     g = f.cfg
-    reads = _env_reads(repo)
-    by_key = {}
-    for ff, k, n in reads:
-        by_key.setdefault(k, []).append(ff.qualname)
-    want_readers = {"GUNICORN_PID": [ARB + ".start", ARB + ".setup", ARB + ".maybe_promote_master"], "GUNICORN_FD": [ARB + ".start", "gunicorn.util.daemonize"],
-                    "LISTEN_PID": ["gunicorn.systemd.listen_fds"], "LISTEN_FDS": ["gunicorn.systemd.listen_fds"]}
-    for k, fs in want_readers.items():
-        for q in fs:
-            ctx.check("C14.R2", q in by_key.get(k, []), "reader|%s|%s" % (k, q.split(".")[-1]), "gunicorn: %s" % q, "%s no longer reads %s (written by reexec): the new master would not adopt the sockets / know its parent" % (q, k), "%s read in %s" % (k, q.split(".")[-1]))
-    # near-miss keys (typos on one side)
-    for k in by_key:
-        if k not in spec.UPGRADE_ENV and any(k.startswith(p) for p in ("GUNICORN_P", "GUNICORN_F", "LISTEN_")):
-            ctx.bad("C14.R2", "unknown-key|" + k, "gunicorn: %s" % by_key[k][0], "environment key %s is read but never written by reexec" % k)
     # the environment handed to exec -- evaluated from the entry of reexec for both hand-off modes: the original
     # environment plus exactly the protocol keys of the mode, GUNICORN_PID = the *old* master's pid (read before the fork),
     # LISTEN_PID = the pid of the process that execs (read after it), LISTEN_FDS = number of listeners, GUNICORN_FD = their
@@ -131,7 +119,7 @@ def r2(ctx):
     forks = [n for c in calls_to(repo, f, "os.fork") for n in nodes_with(f, c)]
     ex_calls = calls_to(repo, f, "os.exec*")
     ex_nodes = [n for c in ex_calls for n in nodes_with(f, c)]
-    ctx.need(forks and ex_nodes, "C14.R2: reexec lacks fork or exec")
+    ctx.need(forks and ex_nodes, rid + ": reexec lacks fork or exec")
     after_fork = set()
     for c in calls_to(repo, f, "os.getpid"):
         if all(any(g.dominates(fk, n, follow_exc=False) for fk in forks) for n in nodes_with(f, c)):
@@ -169,7 +157,7 @@ def r2(ctx):
     for sysd in (False, True):
         from ..absint import SpecObj
         listeners = (SpecObj(fileno=lambda: 7), SpecObj(fileno=lambda: 9), SpecObj(fileno=lambda: 12))
-        env = {"self.systemd": sysd, "self.reexec_pid": 0, "self.master_pid": 0, "self.cfg.env_orig": {"PATH": "/bin", "LANG": "C"}, "self.LISTENERS": listeners,
+        env = {"self.systemd": sysd, "self.reexec_pid": 0, "self.master_pid": 0, "self.cfg.env_orig": {"PATH": "/bin", "LANG": "C", "GUNICORN_CMD_ARGS": "--user=app --workers=3"}, "self.LISTENERS": listeners,
                "MASTER_PID": 1000, "CHILD_PID": 2000}
 
         def probe(ex, env_, c=ex_calls[0]):
@@ -179,7 +167,7 @@ def r2(ctx):
             return tuple(sorted((k, v[k] if isinstance(v[k], str) else "?") for k in v))
         outs = Explorer(f, atom_of=atom_of).run(g.entry, env, probes={n.id: ("environ", probe) for n in ex_nodes})
         got = set(v for o in outs for nm, v in o.events if nm == "environ")
-        want = {"PATH": "/bin", "LANG": "C", "GUNICORN_PID": "1000"}
+        want = {"PATH": "/bin", "LANG": "C", "GUNICORN_CMD_ARGS": "--user=app --workers=3", "GUNICORN_PID": "1000"}
         if sysd:
             want.update({"LISTEN_PID": "2000", "LISTEN_FDS": "3"})
         else:
@@ -191,15 +179,36 @@ def r2(ctx):
             fdv = set(dict(x).get("GUNICORN_FD") for x in got if isinstance(x, tuple))
             for v in fdv:
                 back = parsed_by_start(v) if isinstance(v, str) else None
-                ctx.check("C14.R2", back == {(7, 9, 12)}, key(f, "fd-round-trip"), site(f), "reexec hands listeners on fds 7, 9, 12 over as GUNICORN_FD=%r, which start() parses into %s" % (v, sorted(map(str, back or []))),
+                ctx.check(rid, back == {(7, 9, 12)}, key(f, "fd-round-trip"), site(f), "reexec hands listeners on fds 7, 9, 12 over as GUNICORN_FD=%r, which start() parses into %s" % (v, sorted(map(str, back or []))),
                           "GUNICORN_FD written == parsed")
                 if back == {(7, 9, 12)} and isinstance(v, str):
                     want["GUNICORN_FD"] = v
                     wantt = tuple(sorted(want.items()))
-        ctx.check("C14.R2", got == {wantt}, key(f, "mode|systemd=%s" % sysd), site(f, text="systemd=%s" % sysd),
+        ctx.check(rid, got == {wantt}, key(f, "mode|systemd=%s" % sysd), site(f, text="systemd=%s" % sysd),
                   "with systemd=%s, old master pid 1000, child pid 2000 and listeners on fds 7, 9, 12 the new master's environment is %s, required %s (original environment + the hand-off keys of this mode; "
                   "GUNICORN_PID is the old master's pid, LISTEN_PID the exec'ing process, fds in the spelling start() parses)" % (sysd, [dict(x) if isinstance(x, tuple) else x for x in got], want), "%s" % (want,))
-    ctx.table("C14.R2 environment handed to the new master", rows)
+    ctx.table(rid + " environment handed to the new master", rows)
+
+
+def r2(ctx):
+    repo = ctx.repo
+    f = ctx.fn(repo.func(ARB + ".reexec"))
+    g = f.cfg
+    reads = _env_reads(repo)
+    by_key = {}
+    for ff, k, n in reads:
+        by_key.setdefault(k, []).append(ff.qualname)
+    want_readers = {"GUNICORN_PID": [ARB + ".start", ARB + ".setup", ARB + ".maybe_promote_master"], "GUNICORN_FD": [ARB + ".start", "gunicorn.util.daemonize"],
+                    "LISTEN_PID": ["gunicorn.systemd.listen_fds"], "LISTEN_FDS": ["gunicorn.systemd.listen_fds"]}
+    for k, fs in want_readers.items():
+        for q in fs:
+            ctx.check("C14.R2", q in by_key.get(k, []), "reader|%s|%s" % (k, q.split(".")[-1]), "gunicorn: %s" % q, "%s no longer reads %s (written by reexec): the new master would not adopt the sockets / know its parent" % (q, k), "%s read in %s" % (k, q.split(".")[-1]))
+    # near-miss keys (typos on one side)
+    for k in by_key:
+        if k not in spec.UPGRADE_ENV and any(k.startswith(p) for p in ("GUNICORN_P", "GUNICORN_F", "LISTEN_")):
+            ctx.bad("C14.R2", "unknown-key|" + k, "gunicorn: %s" % by_key[k][0], "environment key %s is read but never written by reexec" % k)
+    exec_environment(ctx, "C14.R2")
+    fs = ctx.fn(repo.func(ARB + ".start"))
     # the new master adopts them: start() -> create_sockets(cfg, log, fds) under master_pid
     cs = calls_to(repo, fs, "gunicorn.sock.create_sockets")
     ctx.check("C14.R2", bool(cs) and len(cs[0].args) >= 3, key(fs, "adopt-fds"), site(fs), "start() does not pass the inherited fds to create_sockets", "create_sockets(cfg, log, fds)")
